@@ -845,6 +845,15 @@ type encLockable struct {
 func (p *encLockable) Lock()   { p.Locks++ }
 func (p *encLockable) Unlock() { p.Unlocks++ }
 
+// encShallow asks copystructure for SHALLOW copies of its byte slices (struct tag copy:"shallow", e.g.
+// for large buffers): the copy the filter works on then shares their backing arrays with the original.
+type encShallow struct {
+	Key  []byte `class:"secret" copy:"shallow"`
+	Blob []byte `copy:"shallow"`
+	Pub  []byte `class:"public" copy:"shallow"`
+	Name string `class:"sensitive"`
+}
+
 // Mutually recursive struct types: a department points to an edge (which holds no strings
 // itself) that points to the parent department.
 type encDept struct {
@@ -932,6 +941,9 @@ func (g *encGen) payload(kind int, depth int) (interface{}, string) {
 		return g.recordPublic(), "*struct(record,public)"
 	case 21:
 		return g.recordProtected(), "*struct(record,protected)"
+	case 26:
+		return &encShallow{Key: []byte(g.canary(g.treatFor("secret", true), "*shallow.Key")), Blob: []byte(g.canary(g.treatFor("", false), "*shallow.Blob")),
+			Pub: []byte(g.canary("keep", "*shallow.Pub")), Name: g.canary(g.treatFor("sensitive", true), "*shallow.Name")}, "*struct(shallow-copied-bytes)"
 	case 19:
 		return map[string]*string{"a": func() *string { s := g.canary("redact", "map[string]*string{}"); return &s }()}, "map[string]*string"
 	default:
@@ -1356,7 +1368,7 @@ func runEncrypt(rc *RunCtx, prop string) {
 			d := &drawRec{tape: tp}
 			fill := []int{15, 40, 80}[tp.Choose(3, "fill")]
 			g := &encGen{d: d, exp: map[string]*leafExp{}, overrides: overrides, fill: fill, withIgnored: withIgnored}
-			kind := tp.Choose(26, "kind")
+			kind := tp.Choose(27, "kind")
 			depth := tp.Choose(3, "depth")
 			var payload interface{}
 			var top string
@@ -1449,6 +1461,14 @@ func runEncrypt(rc *RunCtx, prop string) {
 				}
 				if _, has := out.Format("pre-existing"); !has {
 					rc.Failf("C10.format-table-lost", "", "formatted data the event carried before the filter is missing from the forwarded event")
+				}
+			}
+			if prop == "C09" && out != nil && out != ev {
+				// the original event goes on through the other pipelines of its type: what their formatters
+				// store in ITS format table (plaintext renderings) must not become readable from the forwarded event
+				ev.FormattedAs("c09-probe", []byte("plaintext rendering stored by another pipeline's formatter"))
+				if _, leaked := out.Format("c09-probe"); leaked {
+					rc.Failf("C09.shared-format-table", "", "the forwarded (filtered) event shares its format table with the unfiltered original: plaintext renderings stored in the original by other pipelines can be read from the forwarded event")
 				}
 			}
 			// which key material is in force for this event
